@@ -12,7 +12,9 @@ import (
 // INPLACE(write-behind-read): several set/range helpers filter a slice in place: `out := r[:0]`
 // shares r's backing array, a loop reads r[i], r[i+1], ... (i += step) and appends results to out.
 // This is sound only while every append writes strictly behind the read cursor:
-//     len(out) + (elements appended) <= i + step        (or out was re-allocated first)
+//
+//	len(out) + (elements appended) <= i + step        (or out was re-allocated first)
+//
 // The rule explores the function's control flow with the finite abstraction
 // (d = len(out) - i, "out still aliases r", values of boolean flags), deciding the comparisons
 // between len(out) and i exactly and forking on everything else, and reports an append that can
